@@ -22,6 +22,38 @@ pub enum Shape {
     Scaled { half_exps: Vec<i8> },
 }
 
+/// Memory layout / container form in which the record matrix is handed to linfa.
+#[derive(Debug, Clone, Copy, Serialize, Deserialize, PartialEq, Eq, Default)]
+pub enum Layout {
+    /// owned, standard (C) order — what `Array2::from_shape_fn((n, p), ..)` gives
+    #[default]
+    RowMajor,
+    /// owned, Fortran order — `Array2::from_shape_fn((n, p).f(), ..)`, `a.t().to_owned()`-like
+    ColMajor,
+    /// every second row of a (2n × p) row-major array (non-contiguous view)
+    StridedRows,
+    /// every second column of a (n × 2p) row-major array (non-contiguous view)
+    StridedCols,
+    /// contiguous view with reversed row axis (negative stride)
+    ReversedRows,
+    /// contiguous view with reversed column axis (negative stride)
+    ReversedCols,
+}
+
+impl Layout {
+    pub const ALL: [Layout; 6] = [
+        Layout::RowMajor,
+        Layout::ColMajor,
+        Layout::StridedRows,
+        Layout::StridedCols,
+        Layout::ReversedRows,
+        Layout::ReversedCols,
+    ];
+    pub fn is_owned(self) -> bool {
+        matches!(self, Layout::RowMajor | Layout::ColMajor)
+    }
+}
+
 #[derive(Debug, Clone, Serialize, Deserialize)]
 pub struct Case {
     pub n: usize,
@@ -40,6 +72,12 @@ pub struct Case {
     pub global_exp: i8,
     /// seed of the 50 competing random orthonormal frames
     pub frame_seed: u64,
+    /// layout of the records given to `fit` and to the main `predict` / `transform` calls
+    #[serde(default)]
+    pub layout: Layout,
+    /// fit a `DatasetView` (record and target views) instead of an owned `Dataset`; view layouts are always views
+    #[serde(default)]
+    pub dataset_view: bool,
 }
 
 /// Gram–Schmidt (twice) on the rows of `m`; rows that degenerate are replaced by the first unit
@@ -201,10 +239,21 @@ pub fn case_strategy(tier: Tier) -> impl Strategy<Value = Case> {
                 shape_strategy(p),
                 offsets_strategy(p),
                 prop_oneof![5 => Just(0i8), 2 => Just(1i8), 2 => Just(2i8)],
-                any::<u64>(),
+                (
+                    any::<u64>(),
+                    prop_oneof![
+                        3 => Just(Layout::RowMajor),
+                        3 => Just(Layout::ColMajor),
+                        1 => Just(Layout::StridedRows),
+                        1 => Just(Layout::StridedCols),
+                        1 => Just(Layout::ReversedRows),
+                        1 => Just(Layout::ReversedCols),
+                    ],
+                    any::<bool>(),
+                ),
             )
         })
-        .prop_flat_map(|(p, n, k, whiten, shape, offsets, global_exp, frame_seed)| {
+        .prop_flat_map(|(p, n, k, whiten, shape, offsets, global_exp, (frame_seed, layout, dataset_view))| {
             (gauss_matrix(n, p), gauss_matrix(p, p)).prop_map(move |(g, mix)| Case {
                 n,
                 p,
@@ -216,6 +265,8 @@ pub fn case_strategy(tier: Tier) -> impl Strategy<Value = Case> {
                 offsets: offsets.clone(),
                 global_exp,
                 frame_seed,
+                layout,
+                dataset_view,
             })
         })
 }
